@@ -8,6 +8,8 @@ RX_NOTE = ("Trusted base: TLC 1.8, the TLA+ clause text in spec/RxProps.tla, the
            "configurations listed in the evidence; real executions are model-derived (TLC -simulate), bounded-enumerated and seeded-random.")
 CL_NOTE = ("Trusted base: TLC 1.8, the clause text in spec/ClProps.tla, the recording broker/backend/middlewares of harness/cl_driver.py and its mapping of observed "
            "label values back to pool ids (exact type + bit pattern). Concrete values inside a class are sampled (pool), not enumerated.")
+CALC_NOTE = ("Trusted base: TLC 1.8, spec/Cron.tla, the system tz database read through zoneinfo (zone transition tables), the clock substitution in harness/calc_driver.py. "
+             "A data-shaped property: the spec is the oracle for each call; inputs are enumerated over boundary classes and sampled elsewhere (not exhaustive over all instants).")
 CHECKS = {
  "C01": ("Receiver.tla model-checked (all interleavings of prefetcher/runner/look-ahead fetch/callbacks, every stop instant) + clauses C01_* of RxProps evaluated by TLC on every prefix of traces recorded from the real Receiver.listen(); conformance of those traces to the model", "5/C01"),
  "C02": ("pipeline model (one action per real suspension) model-checked for 3 ack types x sync/async ack x outcomes x backend failure; clauses C02_* judged on every prefix (= crash point) of real traces", "5/C02"),
@@ -19,6 +21,8 @@ CHECKS = {
  "C10": ("execution side: hook order as the straight-line pipeline program of Receiver.tla, C10_ExecOrder/HookOnce/Complete per message on real traces with generated middleware stacks; send side: pre_send -> kick -> post_send sequence of Client.tla, C10_SendOrder/SendComplete on real kiq() calls incl. failing kick and retry re-sends", "5/C10"),
  "C09": ("object-identity model of task/kicker label dicts + typed label transfer over first delivery / retry / requeue (Client.tla) model-checked over call histories; ClProps clauses evaluated by TLC on traces of the real kicker/receiver/retry middleware for a pool of 40 extreme concrete values x 2 serializers", "5/C09"),
  "C11": ("retry state machine (attempt counter travelling as a typed label) model-checked for max_retries 0..6 x flag encodings x no_result_on_retry x all outcome sequences; clauses C11_* on real traces through a real encode/decode cycle per attempt", "5/C11"),
+ "C13": ("calendar + cron matcher + zone offset lookup transcribed into integer TLA+ (Cron.tla), its arithmetic model-checked day by day 1970-2100; every recorded call of the real get_task_delay under a controlled clock judged by TLC (minute-exhaustive over DST/month-end/leap days, random instants 2015-2035, grammar-generated expressions, timedelta grid +-26h, 14 IANA zones)", "5/C13"),
+ "C14": ("delay specified as a relation (DelayOK) over split instants; boundary lattice (second-of-minute x microsecond x T-now offsets around now, horizon, +-2 days) x zone spellings + random pairs, each real call judged by TLC", "5/C14"),
  "C12": ("dependency open/close order modelled after the resolver; C12_* clauses on real traces for all shapes up to 3 teardown-style dependencies; KF-C12-1 classified by signature", "5/C12"),
 }
 PENDING = {
@@ -45,7 +49,7 @@ def main():
             "replay_cmd_template": f"./check {pid} --replay {{path}}",
             "engine": "tlc-model+trace",
             "level_claimed": {"category": "model_checking", "text": text, "design_ref": ref},
-            "level_note": RX_NOTE if pid in ("C01","C02","C03","C04","C05","C06","C07","C10","C12") else CL_NOTE,
+            "level_note": RX_NOTE if pid in ("C01","C02","C03","C04","C05","C06","C07","C10","C12") else (CALC_NOTE if pid in ("C13","C14") else CL_NOTE),
             "technique": "explicit TLA+ spec checked by TLC; verdict = spec property clauses evaluated by TLC on traces recorded from the real code; trace conformance to the spec",
         })
     man = {
